@@ -26,16 +26,18 @@ H(ia, in, eg) == [ia |-> ia, in |-> in, eg |-> eg]
 D(id, ts, sv, exp, hops, peers, next) ==
     [id |-> id, ts |-> ts, sv |-> sv, exp |-> exp, hops |-> hops, peers |-> peers, next |-> next]
 
-(* Pools.  Interface numbers are those for which the REAL segment ids (sha256 over the hops) have the
+(* Pools.  Every updatable attribute differs between the versions of an id in both directions (expiry
+   earlier / later, peer entries gained / lost, ingress interface and usage through the operation
+   arguments), so an update that leaves a column stale or merges it shows.  Interface numbers are those for which the REAL segment ids (sha256 over the hops) have the
    prefix relations of the short model ids: P1/P2 share two hex digits, P3 shares one with them. *)
 P1 == <<H(11, 0, 1), H(12, 2, 0)>>
 P2 == <<H(11, 0, 1), H(12, 2, 6), H(13, 41, 0)>>
 P3 == <<H(21, 0, 3), H(13, 13, 0)>>
 PathPool ==
-    << D(<<0, 4, 6>>, 0, 3, 2 * U, P1, <<>>, 0),              \* 1
-       D(<<0, 4, 6>>, U, 5, 2 * U, P1, << <<1, 42>> >>, 0),   \* 2  newer, other peers (FullID changes)
-       D(<<0, 4, 1>>, 0, 3, U, P2, <<>>, 0),                  \* 3
-       D(<<0, 4, 1>>, U, 4, 3 * U, P2, <<>>, 0),              \* 4  newer
+    << D(<<0, 4, 6>>, 0, 3, 3 * U, P1, <<>>, 0),              \* 1
+       D(<<0, 4, 6>>, U, 5, 2 * U, P1, << <<1, 42>> >>, 0),   \* 2  newer, expires EARLIER, gains a peer entry (FullID changes)
+       D(<<0, 4, 1>>, 0, 3, U, P2, << <<2, 44>> >>, 0),       \* 3
+       D(<<0, 4, 1>>, U, 4, 3 * U, P2, <<>>, 0),              \* 4  newer, expires later, loses its peer entry
        D(<<0, 4, 6>>, 2 * U, 5, 3 * U, P1, <<>>, 0),          \* 5  same version as 2, other payload
        D(<<0, 3, 6>>, 0, 3, 2 * U, P3, << <<2, 44>> >>, 0) >> \* 6
 
@@ -44,8 +46,8 @@ B2 == <<H(11, 0, 1), H(12, 2, 3), H(14, 111, 7)>>
 B3 == <<H(21, 0, 3), H(12, 17, 4)>>
 B4 == <<H(12, 0, 9)>>
 BeaconPool ==
-    << D(<<14, 13, 14>>, 0, 0, 2 * U, B1, <<>>, 13),          \* 1
-       D(<<14, 13, 14>>, U, 1, 2 * U, B1, <<>>, 13),          \* 2  newer
+    << D(<<14, 13, 14>>, 0, 0, 3 * U, B1, <<>>, 13),          \* 1
+       D(<<14, 13, 14>>, U, 1, 2 * U, B1, <<>>, 13),          \* 2  newer, expires EARLIER
        D(<<14, 13, 5>>, 0, 0, U, B2, <<>>, 13),               \* 3  longer
        D(<<14, 13, 5>>, U, 2, 3 * U, B2, <<>>, 13),           \* 4  newer
        D(<<14, 13, 14>>, U, 3, 3 * U, B1, << <<1, 42>> >>, 13), \* 5  same version as 2, other payload
